@@ -32,6 +32,10 @@ type c17Run struct {
 	Cfg        secCfg     `json:"cfg"`
 	LifetimeMs uint32     `json:"lifetime_ms"`
 	Probes     []c17Probe `json:"probes"`
+	// RenewDelayPct: the server holds back its answer to every renewal request
+	// for that share of the lifetime (a slow or stalled server): with 60 the new
+	// token arrives only after the old one has passed its lifetime + 25 %
+	RenewDelayPct int `json:"renew_delay_pct_of_lifetime"`
 }
 
 func (r *c17Run) Sample() any { return r }
@@ -47,6 +51,7 @@ func (r *c17Run) Setup(s *sim.Sim) {
 		}
 	}
 	r.LifetimeMs = sim.Pick(p, uint32(2000), 4000, 8000)
+	r.RenewDelayPct = sim.Pick(p, 0, 0, 0, 20, 45, 60, 60)
 	n := 3 + p.Intn(6)
 	for i := 0; i < n; i++ {
 		r.Probes = append(r.Probes, c17Probe{AtMs: int(r.LifetimeMs)/2 + p.Intn(int(r.LifetimeMs)*5), TokenAge: sim.Pick(p, 0, 1, 1, 2, 3)})
@@ -67,10 +72,22 @@ func (r *c17Run) Main(s *sim.Sim) {
 	var mu sync.Mutex
 	issued := map[uint32]time.Duration{} // token id -> sim time it was issued
 	srv.OnOpen = func(c *rawSrvConn, reqID uint32, req *ua.OpenSecureChannelRequest) bool {
-		c.AnswerOpen(reqID, req)
-		mu.Lock()
-		issued[c.TokenID] = s.Now()
-		mu.Unlock()
+		answer := func() {
+			c.AnswerOpen(reqID, req)
+			mu.Lock()
+			issued[c.TokenID] = s.Now()
+			mu.Unlock()
+		}
+		if req.RequestType == ua.SecurityTokenRequestTypeRenew && r.RenewDelayPct > 0 {
+			s.Fault("renew-response-held-back")
+			go func() {
+				time.Sleep(L * time.Duration(r.RenewDelayPct) / 100)
+				s.Yield("rawsrv.answer-open")
+				answer()
+			}()
+			return false
+		}
+		answer()
 		return false
 	}
 	type ans struct {
@@ -119,7 +136,7 @@ func (r *c17Run) Main(s *sim.Sim) {
 	}
 	errch := make(chan error, 256)
 	ck, sk := key("client", r.Cfg.ClientBits), key("server", r.Cfg.ServerBits)
-	cfg := &uasc.Config{SecurityPolicyURI: r.Cfg.uri(), SecurityMode: r.Cfg.mode(), Lifetime: r.LifetimeMs, RequestTimeout: time.Second,
+	cfg := &uasc.Config{SecurityPolicyURI: r.Cfg.uri(), SecurityMode: r.Cfg.mode(), Lifetime: r.LifetimeMs, RequestTimeout: L + time.Second,
 		Certificate: ck.Cert, LocalKey: ck.Key, RemoteCertificate: sk.Cert, Thumbprint: thumbprint(sk.Cert)}
 	sc, err := uasc.NewSecureChannel(srvURL, conn, cfg, errch)
 	if err == nil {
